@@ -449,10 +449,29 @@ pub fn run(args: &[String]) -> i32 {
             if r3.class() != "ok" || def != emitted {
                 v.push(Violation { sig: format!("C20|generate-config|default-location|exit={}", r3.class()), detail: json!({"argv": a3, "stderr": r3.stderr, "default_file": def, "explicit_file": emitted}) });
             }
+            // default location below a directory that has a configuration of its own: -g starts from the defaults plus the
+            // command line (it reads no file), writes ./typeshare.toml - never the ancestor's - with the same content as
+            // anywhere else, and leaves the ancestor's file alone
+            let sc3 = Scratch::new("c20g3");
+            sc3.write("ws/app/src/lib.rs", SRC.as_bytes());
+            let anc = "[swift]\nprefix = \"Anc\"\n\n[kotlin]\npackage = \"anc.pkg\"\nprefix = \"AncK\"\n";
+            sc3.write("typeshare.toml", anc.as_bytes());
+            sc3.mkdir("member");
+            let mut a4 = cli_args_for(*mask);
+            a4.extend([s("-g"), sc3.path("ws").to_string_lossy().into_owned()]);
+            let r4 = run_cli(&a4, &sc3.path("member"), &[], cli::TIMEOUT);
+            let written = std::fs::read_to_string(sc3.path("member/typeshare.toml")).ok();
+            let anc_after = std::fs::read_to_string(sc3.path("typeshare.toml")).unwrap_or_default();
+            if r4.class() != "ok" || written.as_deref() != Some(emitted.as_str()) || anc_after != anc {
+                v.push(Violation {
+                    sig: format!("C20|generate-config|below-a-configured-directory|exit={}|written={}|ancestor_changed={}", r4.class(), match &written { None => "nothing", Some(w) if *w == emitted => "as-elsewhere", Some(_) => "different-content" }, (anc_after != anc) as u8),
+                    detail: json!({"argv": a4, "cwd": "member (its parent holds a typeshare.toml)", "stderr": r4.stderr, "written": written, "expected": emitted, "ancestor_file_after": anc_after}),
+                });
+            }
             v
         });
         for v in res {
-            g_runs += 10;
+            g_runs += 11;
             for x in v {
                 rep.vios.add(x);
             }
